@@ -385,3 +385,24 @@ contract(SC + '__init__', params={'self': T.obj(SCM.SessionCache), 'maxEntries':
          opts={'symdict_literals': True, 'symtuplelist_repeat': True, 'prune': False}, prop='C18',
          doc='for maxEntries >= 2 the constructor raises nothing and establishes the representation invariant '
              '(empty dict, empty segment, lock not held, list length == maxEntries)')
+
+
+# --------------------------------------------------------------------------
+# Diagnostic (NOT part of the C18 check: it states the defect, so it must stop holding once /repo is repaired):
+# storing under an id that is already cached makes the representation invariant unsatisfiable -- for every choice
+# of the ghost id -> cell map.  `python3-vt -m pyvc.run1 contracts.sessioncache diagnostic`
+def _dup_post(ns):
+    o, n, key, full, oldest = _set_views(ns)
+    p = z3.Select(ns.pos.t, key)                 # the cell that held the id before the store
+    two_cells = z3.And(n.live(p), n.live(o.L), p != o.L, z3.Select(n.ids, p) == key, z3.Select(n.ids, o.L) == key)
+    orphan = z3.And(n.live(o.L), z3.Select(n.ids, o.L) == key, z3.Not(z3.Select(n.dom, key)))
+    return z3.Or(two_cells, orphan)
+
+
+contract(SC + '__setitem__', name='diagnostic:__setitem__[cached id] breaks the invariant',
+         params={'self': cache_obj(), 'sessionID': T.bytes(), 'session': T.opaque()}, setup=_setup,
+         requires=lambda ns: S.And(_req(ns), _b(z3.Select(View(ns).dom, to_val(ns.sessionID)))),
+         raises={}, ensures=lambda ns: _b(_dup_post(ns)), prop='C18-defect-diagnostic',
+         doc='after a store under an already cached id either two live cells hold the id, or (the old cell was the '
+             'oldest and the list was full) the new cell holds the id but the dict entry is gone: in both cases no '
+             'id -> cell correspondence exists, i.e. R2/R3 are unsatisfiable for every ghost map')
